@@ -711,7 +711,10 @@ def recheck_hangs(component, cases_path, obs_path, per_case_timeout_ms, env, tim
     _rechecking = True
     try:
         changed = False
+        stood = 0
         for n, k in enumerate(hung):
+            if stood >= 2:
+                break       # two time-outs repeated on their own: the verdict is settled, the other records stand as they are
             case = obs[k]["case"]
             cpath, opath = "%s.hang-%d.ndjson" % (obs_path, n), "%s.hang-%d.obs" % (obs_path, n)
 
@@ -735,6 +738,7 @@ def recheck_hangs(component, cases_path, obs_path, per_case_timeout_ms, env, tim
                 _, bad, _ = rerun(more)
                 total += more
             if bad:
+                stood += 1
                 log("[hang] %s record %d hangs again on its own (%d repetitions): the record stands" % (component, k + 1, total))
                 continue
             obs[k] = ("__repl__", recs)
